@@ -27,21 +27,23 @@ IsInv(c) == Rank(c) <= 1
 IsGuard(c) == Rank(c) <= 2
 IsConstr(c) == Rank(c) <= 3
 
-(* leaves: text template, class assigned by the relational rules, has a clock *)
-LeafTable ==
-  [ p    |-> [cls |-> "BOOL",   clk |-> FALSE],   \* i < 3        integer predicate
-    b    |-> [cls |-> "BOOL",   clk |-> FALSE],   \* b            boolean variable
-    lt   |-> [cls |-> "INV",    clk |-> TRUE],    \* x < 3        LT: clock vs bound -> INVARIANT
-    le   |-> [cls |-> "INV",    clk |-> TRUE],    \* x <= 3
-    gt   |-> [cls |-> "INV",    clk |-> TRUE],    \* x > 3        GT: clock vs integer -> INVARIANT
-    ge   |-> [cls |-> "INV",    clk |-> TRUE],    \* x >= 3
-    eq   |-> [cls |-> "GUARD",  clk |-> TRUE],    \* x == 3       EQ: clock vs number -> GUARD
-    ne   |-> [cls |-> "CONSTR", clk |-> TRUE],    \* x != 3       NEQ: clock vs integer -> CONSTRAINT
-    dlt  |-> [cls |-> "INV",    clk |-> TRUE],    \* x - y < 3    diff vs bound -> INVARIANT
-    dge  |-> [cls |-> "INV",    clk |-> TRUE],    \* x - y >= 3
-    deq  |-> [cls |-> "GUARD",  clk |-> TRUE],    \* x - y == 3
-    ilt  |-> [cls |-> "INV",    clk |-> TRUE] ]   \* 3 < x        bound vs clock (mirrored)
-LeafNames == IF FullLeaves THEN DOMAIN LeafTable ELSE {"p", "lt", "eq", "ne"}
+(* leaves are triples <<op, operand, orientation>>:
+     <<"p","","">>  i < 3 (integer predicate)      <<"b","","">>  b (boolean variable)
+     <<op, od, orr>> with op in lt le gt ge eq ne, od in c (clock x) / d (difference x - y),
+                     orr in l (x op 3) / r (3 op x)
+   class assigned by the relational cases of typechecker.cpp (LT/LE, GE/GT: INVARIANT; EQ: GUARD; NEQ: CONSTRAINT),
+   whichever side the clock is on *)
+RelOps == {"lt", "le", "gt", "ge", "eq", "ne"}
+RelLeaves == {<<op, od, orr>> : op \in RelOps, od \in {"c", "d"}, orr \in {"l", "r"}}
+AllLeaves == {<<"p", "", "">>, <<"b", "", "">>} \cup RelLeaves
+ClassLeaves == {<<"p", "", "">>, <<"lt", "c", "l">>, <<"eq", "c", "l">>, <<"ne", "c", "l">>}
+MidLeaves == ClassLeaves \cup {<<"b", "", "">>, <<"le", "c", "l">>, <<"gt", "c", "l">>, <<"ge", "c", "l">>, <<"lt", "d", "l">>,
+                               <<"ge", "d", "l">>, <<"eq", "d", "l">>, <<"lt", "c", "r">>}
+LeafCls(l) == IF l[1] \in {"p", "b"} THEN "BOOL"
+              ELSE IF l[1] \in {"lt", "le", "gt", "ge"} THEN "INV"
+              ELSE IF l[1] = "eq" THEN "GUARD" ELSE "CONSTR"
+LeafClk(l) == l[1] \notin {"p", "b"}
+LeafNames == IF FullLeaves THEN MidLeaves ELSE ClassLeaves
 
 Unary == {"not", "forall", "exists"}
 Binary == {"and", "or", "imply", "xor", "eqq", "neq"}
@@ -76,7 +78,7 @@ CvxBin(op, a, b) == CASE op = "and" -> a.cvx /\ b.cvx
                       [] op = "imply" -> ~a.clk /\ b.cvx
                       [] op \in {"xor", "eqq", "neq"} -> ~a.clk /\ ~b.clk
 
-AbsLeaf(l) == [cls |-> LeafTable[l].cls, clk |-> LeafTable[l].clk, cvx |-> TRUE, conj |-> TRUE]
+AbsLeaf(l) == [cls |-> LeafCls(l), clk |-> LeafClk(l), cvx |-> TRUE, conj |-> TRUE]
 AbsUn(op, a) == [cls |-> RuleUn(op, a.cls), clk |-> a.clk, cvx |-> CvxUn(op, a), conj |-> FALSE]
 AbsBin(op, a, b) == [cls |-> RuleBin(op, a.cls, b.cls), clk |-> a.clk \/ b.clk, cvx |-> CvxBin(op, a, b),
                      conj |-> op = "and" /\ a.conj /\ b.conj]
@@ -93,7 +95,7 @@ vars == <<stk, okg, oki>>
 
 Init == stk = <<>> /\ okg = <<>> /\ oki = <<>>
 PushLeaf == /\ Len(stk) < MaxStack
-            /\ \E l \in DOMAIN LeafTable :
+            /\ \E l \in AllLeaves :
                   /\ stk' = Append(stk, AbsLeaf(l))
                   /\ okg' = Append(okg, AtomOKGuard(AbsLeaf(l)))
                   /\ oki' = Append(oki, AtomOKInv(AbsLeaf(l)))
@@ -118,9 +120,9 @@ CompleteConj == \A i \in 1..Len(stk) : stk[i].conj => /\ (okg[i] => AcceptsGuard
 
 ---------------------------------------------------------------------------
 (* (2) concrete trees, exported *)
-RECURSIVE Trees(_)
-Trees(d) == IF d = 0 THEN {<<l>> : l \in LeafNames}
-            ELSE LET S == Trees(d - 1) IN
+RECURSIVE TreesOver(_, _)
+TreesOver(L, d) == IF d = 0 THEN {<<l>> : l \in L}
+            ELSE LET S == TreesOver(L, d - 1) IN
                  S \cup {<<op, a>> : op \in Unary, a \in S} \cup {<<op, a, b>> : op \in Binary, a \in S, b \in S}
 RECURSIVE Abs(_)
 Abs(t) == IF Len(t) = 1 THEN AbsLeaf(t[1])
@@ -133,6 +135,9 @@ Case(t) == LET v == Abs(t) IN
     [t |-> t, cvx |-> v.cvx, clk |-> v.clk, cls |-> v.cls, conj |-> v.conj,
      atomsg |-> \A l \in Atoms(t) : AtomOKGuard(AbsLeaf(l)), atomsi |-> \A l \in Atoms(t) : AtomOKInv(AbsLeaf(l))]
 
+(* replayed universe: every tree to depth Depth over the chosen leaf set, plus every tree to depth 1 over ALL
+   24 relational spellings (operator x clock/difference x side), so a rule that mis-types one spelling is hit *)
+Trees(d) == TreesOver(LeafNames, d) \cup TreesOver(AllLeaves, 1)
 TreeSound == \A t \in Trees(Depth) : LET v == Abs(t) IN
                 /\ AcceptsGuard(v) => v.cvx
                 /\ AcceptsInv(v) => v.cvx
